@@ -9,7 +9,10 @@
 (*   - entitlement as the protocol defines it: a legacy session from connect  *)
 (*     to close, a 2026-07-28 session from the acknowledgement of its         *)
 (*     subscriptions/listen request to close; a URI subscription from the     *)
-(*     successful subscribe to the unsubscribe / close;                       *)
+(*     successful subscribe to the unsubscribe / close; the URIs of ONE       *)
+(*     listen request naming several URIs from its acknowledgement (a request *)
+(*     of which the server refused a URI is never acknowledged: the session   *)
+(*     is subscribed to none of them) until the stream is cancelled;          *)
 (*   - every notification the server hands to a session (server sending       *)
 (*     middleware), every notification a client receives (client receiving    *)
 (*     middleware) and every invocation of a user handler; the i-th           *)
@@ -28,7 +31,7 @@ KindsOfN(n) == IF n = "resources" THEN {"resources", "templates"} ELSE {n}
 
 M0 == [off |-> {}, want |-> <<>>, era |-> <<>>, closed |-> {}, names |-> <<>>, ver |-> <<>>, cv |-> <<>>,
        chgB |-> <<>>, chgE |-> <<>>, sends |-> <<>>, acnt |-> <<>>, ucnt |-> <<>>, handled |-> <<>>,
-       ent |-> <<>>, usub |-> <<>>, unsubbing |-> {}, subbing |-> {}, calls |-> <<>>, updB |-> 0, open |-> {}]
+       ent |-> <<>>, usub |-> <<>>, unsubbing |-> {}, subbing |-> {}, lproc |-> {}, calls |-> <<>>, updB |-> 0, open |-> {}]
 
 Get(f, k, d) == IF k \in DOMAIN f THEN f[k] ELSE d
 Put(f, k, v) == [x \in DOMAIN f \cup {k} |-> IF x = k THEN v ELSE f[x]]
@@ -80,7 +83,9 @@ OnUpdatedEnd(e) ==
       sub == Get(m.usub, e.u, {})
       \* a session whose unsubscribe the server is still processing (its UnsubscribeHandler has not returned) may get it
       \* ... and so may one whose subscribe request the server has taken but whose acknowledgement the client has not seen
-      may == sub \cup {s \in DOMAIN m.era : <<s, e.u>> \in m.unsubbing \/ <<s, e.u>> \in m.subbing} IN
+      \* ... and one whose subscriptions/listen request naming the URI the server is still working on (its handler, which
+      \* runs the SubscribeHandler / UnsubscribeHandler of every URI, has not returned)
+      may == sub \cup {s \in DOMAIN m.era : <<s, e.u>> \in m.unsubbing \/ <<s, e.u>> \in m.subbing \/ <<s, e.u>> \in m.lproc} IN
   /\ \A s \in to \ may : Fail2("C18.UpdatedExactlySubscribers", s, "extra")
   /\ \A s \in sub \ to : Fail2("C18.UpdatedExactlySubscribers", s, "missing")
   /\ m' = m
@@ -136,10 +141,25 @@ OnUnsubBegin(e) == m' = [m EXCEPT !.usub = Put(m.usub, e.u, Get(m.usub, e.u, {})
                                   !.unsubbing = @ \cup {<<e.s, e.u>>}, !.subbing = @ \ {<<e.s, e.u>>}]
 OnSrvUnsubExit(e) == m' = [m EXCEPT !.unsubbing = @ \ {<<e.s, e.u>>}]
 
+\* ONE subscriptions/listen request naming several URIs.  The session is subscribed to them once the request has been
+\* acknowledged (OnAck); a request that was not acknowledged (the server's SubscribeHandler refused one of the URIs)
+\* subscribes the session to NONE of them.
+Pairs(s, us) == {<<s, u>> : u \in us}
+OnListenBegin(e) == m' = [m EXCEPT !.subbing = @ \cup Pairs(e.s, AsSet(e.uris))]
+OnListenEnd(e) ==
+  LET U == AsSet(e.uris) IN
+  m' = IF e.ok THEN [m EXCEPT !.usub = [u \in DOMAIN m.usub \cup U |-> IF u \in U THEN Get(m.usub, u, {}) \cup {e.s} ELSE m.usub[u]],
+                              !.subbing = @ \ Pairs(e.s, U)]
+       ELSE [m EXCEPT !.subbing = @ \ Pairs(e.s, U)]
+\* the server's handler of a listen request is running / has returned
+OnSrvListenEnter(e) == m' = [m EXCEPT !.lproc = @ \cup Pairs(e.s, AsSet(e.uris))]
+OnSrvListenExit(e) == m' = [m EXCEPT !.lproc = @ \ Pairs(e.s, AsSet(e.uris))]
+
 OnCloseBegin(e) ==
   m' = [m EXCEPT !.ent = [x \in DOMAIN m.ent |-> IF x[1] = e.s THEN 0 ELSE m.ent[x]],
                  !.usub = [u \in DOMAIN m.usub |-> m.usub[u] \ {e.s}], !.open = @ \ {e.s},
-                 !.unsubbing = {x \in m.unsubbing : x[1] # e.s}, !.subbing = {x \in m.subbing : x[1] # e.s}]
+                 !.unsubbing = {x \in m.unsubbing : x[1] # e.s}, !.subbing = {x \in m.subbing : x[1] # e.s},
+                 !.lproc = {x \in m.lproc : x[1] # e.s}]
 OnCloseEnd(e) == m' = [m EXCEPT !.closed = @ \cup {e.s}]
 
 \* subscriptions of closed sessions are forgotten (snapshot of the server's maps, taken under its lock)
@@ -193,6 +213,10 @@ Step(e) ==
     [] e.ev = "sub.end"       -> OnSubEnd(e)
     [] e.ev = "unsub.begin"   -> OnUnsubBegin(e)
     [] e.ev = "srv.unsub.exit" -> OnSrvUnsubExit(e)
+    [] e.ev = "listen.begin"  -> OnListenBegin(e)
+    [] e.ev = "listen.end"    -> OnListenEnd(e)
+    [] e.ev = "srv.listen.enter" -> OnSrvListenEnter(e)
+    [] e.ev = "srv.listen.exit" -> OnSrvListenExit(e)
     [] e.ev = "close.begin"   -> OnCloseBegin(e)
     [] e.ev = "close.end"     -> OnCloseEnd(e)
     [] e.ev = "step"          -> OnSnap(e)
